@@ -16,7 +16,9 @@ CFG = dict(
     technique="Lean 4 proof (inductive invariants over event lists; regression / refutation witnesses by `decide`) + regenerated constants / literal-operator lists / call-site and "
               "statement-presence facts + differential run of the real handlers against the model + implementation-side oracle",
     lean=["Ssv.Props.C16"],
-    engines=[dict(harness="duties", driver="m_duties", case_delim="reset", n_quick=800, n_thorough=8000, thorough_seeds=4, n_search=6000, search_seeds=4)],
+    engines=[dict(harness="duties", driver="m_duties", case_delim="reset", n_quick=800, n_thorough=8000, thorough_seeds=4, n_search=6000, search_seeds=4),
+             # real-time glue strata, no model: real slotticker read late / real proposer handler on it / real StartValidators with a slow set-up
+             dict(harness="duties", driver=None, args=["-mode", "glue"], n_quick=48, n_thorough=600, thorough_seeds=2, n_search=200, search_seeds=2)],
     rule="seeded generator: handler kind (att 45% / prop 20% / sync 35%), network (real 32/256 near epoch and sync-period boundaries, or small spe in {4,6,8,16} x epp in {2,3,4,8}), "
          "40-160 ticks per case with skipped slots, clock skew (-1, +1, +spe+2), reorg(previous|current|both) and indices-change notices before/after ticks (boosted after the last "
          "slot of an epoch; 1% handled one tick late; 1% carrying a slot later than the next tick), scripted registries (own/foreign, liquidated, attesting / pending-queued / exited / slashed / unknown / no metadata, random order, changing before indices-change notices), per-fetch beacon answer ok (assignments change at every re-fetch: validators move "
@@ -26,6 +28,7 @@ CFG = dict(
                   "mock slot ticker / wall clock / beacon node of the harness (the beacon mock answers for the requested indices only); barrier = a ReorgEvent{Previous:false,Current:false} passing through the handler's select loop",
                   "in small-network cases the slot/epoch/period arithmetic of the mocked BeaconNetwork mirrors beacon.Network with the two parameters replaced (real-network cases use the real beacon.Network)",
                   "the oracle's reading of 'fetched successfully': the most recent SUCCESSFUL assignment of the epoch/period stays owed across later failed fetches, unless a reorg / indices-change notice declared it out of date and the re-fetch of that epoch/period failed (the Lean monitor is weaker: any failed fetch voids the obligations until the next success)"],
+    explanation="second engine entry (mode glue): wall-clock strata with one-sided bounds only (a tick / dispatch must not come BEFORE the start of its slot; a waitForInitial fetch must not consult CommitteeActiveIndices before StartValidators finished) so load can never make them alarm",
     assumptions=["the slot ticker delivers strictly increasing slots (real slotticker: `nextSlot <= s.slot` guard)",
                  "exactly-once clause: the handler's select loop does not take a tick after a notice that carries a later slot (notices may be arbitrarily late)",
                  "ExecuteDuties (goroutine per duty, one-third-slot wait) hands every duty it is given to the executor exactly once — outside the model",
